@@ -601,6 +601,7 @@ def oracle_stack_chunk_size(ck, rng):
                     hs = np.asarray(ld.average_split(n_set=1, seed=2, squeeze=False))[0]
                     ga = ld.groupby("g").average()
                     ap = ld.apply([np.mean, np.std]).to_numpy()
+                    gap = ld.groupby("g").apply([np.mean, np.std, np.max])
                 if not np.allclose(avg, ref.mean(axis=0), atol=1e-4): bad.append(f"average differs from the mean of the sub-volumes by {np.abs(avg - ref.mean(axis=0)).max():.3g}")
                 if not halves_partition(ref, hs):
                     bad.append("half maps are not the means of two disjoint, exhaustive, non-empty parts of the sub-volumes")
@@ -608,6 +609,12 @@ def oracle_stack_chunk_size(ck, rng):
                     rows = [j for j in range(n) if j % 3 == key]
                     if not np.allclose(np.asarray(ga[key]), ref[rows].mean(axis=0), atol=1e-4): bad.append(f"group {key} average differs")
                 if not np.allclose(ap, np.stack([ref.reshape(n, -1).mean(axis=1), ref.reshape(n, -1).std(axis=1)], axis=1), atol=1e-4): bad.append("apply rows differ")
+                for key in gap:
+                    rows = [j for j in range(n) if j % 3 == key]
+                    flat = ref[rows].reshape(len(rows), -1)
+                    want_ = np.stack([flat.mean(axis=1), flat.std(axis=1), flat.max(axis=1)], axis=1)
+                    if gap[key].shape != want_.shape or not np.allclose(gap[key].to_numpy(), want_, atol=1e-4):
+                        bad.append(f"group {key}: the deferred apply table is not (mean, std, max) of that group's sub-volumes evaluated directly")
             except Exception as e:  # noqa
                 bad.append(f"raised {type(e).__name__}: {e}")
             if bad:
